@@ -118,7 +118,7 @@ def drive(mod, tier, seed, out=sys.stdout):
         first_round = True
         while True:
             # submit
-            while not exhausted and not stop_submitting and len(pending) < workers * 2:
+            while not exhausted and not stop_submitting and len(pending) < workers + 4:
                 try:
                     c = next(gen)
                 except StopIteration:
@@ -145,8 +145,12 @@ def drive(mod, tier, seed, out=sys.stdout):
             done, _ = cf.wait(list(pending), timeout=1.0, return_when=cf.FIRST_COMPLETED)
             for f in done:
                 consume(f)
-            if time.time() > deadline and not first_round:
+            if time.time() > deadline and not first_round and not stop_submitting:
                 stop_submitting = True
+                # batches that have not started yet are dropped (as if never generated)
+                for f in list(pending):
+                    if f.cancel():
+                        submitted -= len(pending.pop(f))
             first_round = False
             if time.time() > deadline + max(420.0, budget):
                 # hard watchdog on the whole check: abandon what is still running
